@@ -309,7 +309,7 @@ func c13BandGen(t *rapid.T) c13Case {
 	}
 	sp.RequireSets = []string{req}
 	if rapid.Bool().Draw(t, "second") {
-		sp.RequireSets = append(sp.RequireSets, pool[0]+req[:1])
+		sp.RequireSets = append(sp.RequireSets, pool[0]+oracle.Chars(req)[0])
 	}
 	return c13Case{Spec: sp, MaxTrials: 200, MaxFail: 1e-9, Script: gen.Uint32s(t, "script", 4), Key: rapid.Uint64().Draw(t, "key"), AllFail: rapid.IntRange(0, 4).Draw(t, "allfail") == 0}
 }
